@@ -480,6 +480,7 @@ func (c *EvalCtx) index(e EIndex) EV {
 		return EV{T: Ite(present, Select(fr.mapVals(xt, u), c.term(i), vs), fr.R.TM.Zero(u.Elem())), Ty: u.Elem()}
 	case *types.Slice:
 		es := fr.R.TM.SortOf(u.Elem())
+		fr.R.Heap.NoteType(elemsComp(u.Elem()), u.Elem())
 		arr := fr.R.Heap.Get(fr.st, elemsComp(u.Elem()), ArraySort(SInt, ArraySort(SInt, es)))
 		return EV{T: Select(Select(arr, app(SInt, "s-arr", xt), ArraySort(SInt, es)), Add(app(SInt, "s-off", xt), c.term(i)), es), Ty: u.Elem()}
 	case *types.Basic:
@@ -507,12 +508,25 @@ func (c *EvalCtx) quant(e EQuant) EV {
 		vars[b.Name] = EV{T: T(name, s), Ty: ty}
 		decl = append(decl, fmt.Sprintf("(%s %s)", name, s))
 	}
-	body := c.with(vars).Bool2(e.Body)
+	inner := c.with(vars)
+	body := inner.Bool2(e.Body)
 	q := "exists"
 	if e.Forall {
 		q = "forall"
 	}
-	return EV{T: T(fmt.Sprintf("(%s (%s) %s)", q, strings.Join(decl, " "), body.S), SBool), Ty: types.Typ[types.Bool]}
+	bs := body.S
+	if len(e.Triggers) > 0 {
+		var pats []string
+		for _, g := range e.Triggers {
+			var ts []string
+			for _, te := range g {
+				ts = append(ts, inner.term(inner.eval(te)).S)
+			}
+			pats = append(pats, ":pattern ("+strings.Join(ts, " ")+")")
+		}
+		bs = "(! " + bs + " " + strings.Join(pats, " ") + ")"
+	}
+	return EV{T: T(fmt.Sprintf("(%s (%s) %s)", q, strings.Join(decl, " "), bs), SBool), Ty: types.Typ[types.Bool]}
 }
 
 // heapCompArg resolves a 'reads' component name to its current term.
@@ -712,6 +726,44 @@ func (c *EvalCtx) call(e ECall) EV {
 		E := fr.R.Heap.Get(fr.st, elemsComp(st.Elem()), ArraySort(SInt, ArraySort(SInt, SSlice)))
 		off := app(SInt, "s-off", xt)
 		return EV{T: app(SInt, "sumlen", Select(E, app(SInt, "s-arr", xt), ArraySort(SInt, SSlice)), off, Add(off, app(SInt, "s-len", xt))), Ty: intT}
+	case "fresh":
+		// fresh(x): the reference (or the backing array of a slice) did not exist in the pre-state
+		if c.old == nil {
+			c.fail("fresh() has no pre-state here")
+		}
+		x := c.eval(e.Args[0])
+		xt := c.term(x)
+		if xt.Sort == SSlice {
+			xt = app(SInt, "s-arr", xt)
+		}
+		return EV{T: Lt(c.old.top, xt), Ty: boolT}
+	case "inDom", "rawGet":
+		// raw map reads without the nil-map guard: plain function applications, usable as quantifier triggers
+		m := c.eval(e.Args[0])
+		mt, ok := types.Unalias(m.Ty).Underlying().(*types.Map)
+		if !ok {
+			c.fail("%s needs a map", e.Fun)
+		}
+		k := c.term(c.eval(e.Args[1]))
+		if e.Fun == "inDom" {
+			return EV{T: Select(fr.mapDom(c.term(m), mt), k, SBool), Ty: boolT}
+		}
+		_, vs := fr.mapSorts(mt)
+		return EV{T: Select(fr.mapVals(c.term(m), mt), k, vs), Ty: mt.Elem()}
+	case "off":
+		x := c.eval(e.Args[0])
+		return EV{T: app(SInt, "s-off", c.term(x)), Ty: intT}
+	case "absElem":
+		// absElem(xs, j): the element at absolute position j of the backing array of xs
+		x := c.eval(e.Args[0])
+		st, ok := types.Unalias(x.Ty).Underlying().(*types.Slice)
+		if !ok {
+			c.fail("absElem needs a slice")
+		}
+		es := fr.R.TM.SortOf(st.Elem())
+		fr.R.Heap.NoteType(elemsComp(st.Elem()), st.Elem())
+		E := fr.R.Heap.Get(fr.st, elemsComp(st.Elem()), ArraySort(SInt, ArraySort(SInt, es)))
+		return EV{T: Select(Select(E, app(SInt, "s-arr", c.term(x)), ArraySort(SInt, es)), c.term(c.eval(e.Args[1])), es), Ty: st.Elem()}
 	case "backing":
 		x := c.eval(e.Args[0])
 		return EV{T: app(SInt, "s-arr", c.term(x)), Ty: intT}
